@@ -48,6 +48,12 @@ type Spec struct {
 	// Post runs once in the orchestrator after the workers (extra stages such
 	// as the real binary); it may add violations and coverage.
 	Post func(seed uint64, tier string, cov *Cov) ([]*Violation, map[string]any, error)
+	// MustReach: reach probes that have to be above zero after a batch. A probe
+	// stuck at zero means the workload no longer gets to what the check is
+	// about (a source file of the generated tree that stopped parsing, a stage
+	// that silently skipped): the batch is then reported as infrastructure
+	// trouble (exit 2) instead of passing vacuously.
+	MustReach []string
 	// Posts: further stages, run after Post.
 	Posts []func(seed uint64, tier string, cov *Cov) ([]*Violation, map[string]any, error)
 }
